@@ -366,11 +366,21 @@ def check_args(E, con, fi, args, types, want=None, check_requires=False):
 
     def valid(f, tmo=20000):
         """validity of a clause on the concrete state, under the definitional facts collected while building it (fold unfoldings)"""
+        from .concrete import ground, mentions_setsum
+
+        if mentions_setsum(f) or ctx.ghost.get("setsum_axioms"):
+            # set sums: evaluated explicitly over the known objects (the axioms of the uninterpreted ssum are not needed then)
+            known = list(hb0.ids.values()) + (list(hb1_ids) if hb1_ids else [])
+            pc = [p for p in ctx.pc if not z3.is_quantifier(p)]
+            g = ground(f, known)
+            return holds(z3.Implies(z3.And(*pc), g) if pc else g, tmo)
         return holds(z3.Implies(z3.And(*ctx.pc), f) if ctx.pc else f, tmo)
 
+    hb1_ids = []
     hb0 = HeapBuilder(ctx)
     cb0 = {name: SV(hb0.encode(args[name], types[name]), types[name]) for name in args}
     old_h = hb0.heap()
+    ctx.assume(ctx.alloc0 == hb0.next)       # objects created during the call get the ids after those of the entry state
     info = {"inputs": {k: _describe(v) for k, v in args.items()}}
     if check_requires:
         pre = Spec(ctx, old_h, old_h)
@@ -402,6 +412,7 @@ def check_args(E, con, fi, args, types, want=None, check_requires=False):
         rty = ctx.resolve_ty(con.result)
         rv_term = hb1.encode(result, rty)
     new_h = hb1.heap()
+    hb1_ids = list(hb1.ids.values())
     spec = Spec(ctx, old_h, new_h)
     spec.mode = "prove"
     evs = _event_terms(spec, hb1, log)
@@ -521,6 +532,8 @@ def gen_value(E, ctx, ty, rng, depth=0):
         if ty.kind == "dict-items":
             return dict(items)
         return items
+    if type(ty).__name__ == "TSet":
+        return {gen_value(E, ctx, ty.elem, rng, depth + 1) for _ in range(rng.choice([0, 1, 2, 3]))}
     if isinstance(ty, TMap):
         n = rng.choice([0, 1, 2, 3])
         return {gen_value(E, ctx, ty.key or TStr(), rng, depth + 1): gen_value(E, ctx, ty.val, rng, depth + 1) for _ in range(n)}
@@ -549,12 +562,18 @@ def native_search(E, con, fi, seed=0, budget_s=8.0, max_samples=400):
         try:
             args = {}
             types = {}
-            for name, ty in con.params.items():
-                if callable(ty) and not isinstance(ty, T):
-                    raise NotConcretisable("parameter producer")
-                ty = ctx.resolve_ty(ty)
-                types[name] = ty
-                args[name] = gen_value(E, ctx, ty, rng)
+            custom = con.ns.get("gen_args") if hasattr(con, "ns") else None
+            if custom is not None:
+                # the sidecar's own generator of real inputs (states satisfying a representation invariant are rare under blind sampling)
+                args = custom(rng)
+                types = {name: ctx.resolve_ty(ty) for name, ty in con.params.items()}
+            else:
+                for name, ty in con.params.items():
+                    if callable(ty) and not isinstance(ty, T):
+                        raise NotConcretisable("parameter producer")
+                    ty = ctx.resolve_ty(ty)
+                    types[name] = ty
+                    args[name] = gen_value(E, ctx, ty, rng)
             if con.new_object:
                 o = args[con.new_object]
                 for k in list(vars(o)):
